@@ -106,15 +106,15 @@ def job_gcc(res, n, fs):
                 else: confirm(res, PID, HARNESS, 'h_gccphat', [('pf64', x), ('i32', n), ('i32', d & 0xffffffff), ('i32', fs)], 'f64', 'gcc', ORACLES, f'gccphat:shift:{"neg" if d < 0 else "pos"}:fs{"1" if fs == 1 else "n"}', f'gccphat n={n} fs={fs} shift {d}: tau*fs = {r * fs}')
 
 PN = {7: [1, 1, 1, -1, -1, 1, -1], 5: [1, 1, 1, -1, 1], 11: [1, 1, 1, -1, -1, -1, 1, -1, -1, 1, -1]}      # rotated by e^{0.4ik}: normalised sidelobes 0.38 / 0.45 / 0.30 < threshold 0.5 (single-sample peak premise)
-def job_detect(res, nh, pos, nframes, absent=False, tscale=1.0):
+def job_detect(res, nh, pos, nframes, absent=False, tscale=1.0, chunk=1):
     """concrete PN preamble (complex, rotated), amplitude A symbolic in [1e-3, 1e3], preamble placed at stream offset pos: exactly one detection at the index of the last preamble sample, samples returned, score^2 ~ 1"""
     mod, so = load(HARNESS); h = []
     for k, v in enumerate(PN[nh]): h += [v * math.cos(0.4 * k), v * math.sin(0.4 * k)]
     ht = [v * tscale for v in h]      # the reference template handed to the constructor may have any power: the score is normalised by it
-    mc = Machine(mod); fl = mc.alloc_ints([0], 32, 'fl'); mc.call('@h_detect', [mc.alloc_doubles(ht, 'h'), nh, 0.5, mc.alloc_doubles([0.0] * 4, 'x'), 0, mc.alloc_doubles([0.0] * 4, 'o'), 4, fl]); L = mc.read_ints(fl, 1)[0]
+    mc = Machine(mod); fl = mc.alloc_ints([0], 32, 'fl'); mc.call('@h_detect', [mc.alloc_doubles(ht, 'h'), nh, 0.5, mc.alloc_doubles([0.0] * 4, 'x'), 0, mc.alloc_doubles([0.0] * 4, 'o'), 4, fl, 1]); L = mc.read_ints(fl, 1)[0] * chunk       # L = samples per process() call (chunk frames)
     N = nframes * L; rl = 3 + 2 * nh
     if pos + nh > N: return
-    label = f'PreambleDetector PN{nh} frame_len={L}: preamble at stream offset {pos} ({"absent" if absent else "present"}), {nframes} frames' + (f', template scaled by {tscale}' if tscale != 1.0 else '')
+    label = f'PreambleDetector PN{nh} frame_len={L}: preamble at stream offset {pos} ({"absent" if absent else "present"}), {nframes} frames' + (f', template scaled by {tscale}' if tscale != 1.0 else '') + (f', {chunk} frames per process() call' if chunk != 1 else '')
     A = z3.Real('A')
     def build(Av):
         x = [0.0] * (2 * N)
@@ -138,16 +138,16 @@ def job_detect(res, nh, pos, nframes, absent=False, tscale=1.0):
         # the amplitude is therefore enumerated over five decades (ground obligations) instead of being symbolic - the score is scale-invariant up to the eps guard
         for Av in (1e-3, 0.05, 1.0, 37.0, 1e3):
             m = Machine(mod, max_steps=100_000_000); out = m.alloc_doubles([0.0] * (rl * 4), 'out'); flp = m.alloc_ints([0], 32, 'fl')
-            try: cnt = m.call('@h_detect', [m.alloc_doubles(ht, 'h'), nh, 0.5, m.alloc_doubles(build(Av), 'x'), nframes, out, rl, flp])
+            try: cnt = m.call('@h_detect', [m.alloc_doubles(ht, 'h'), nh, 0.5, m.alloc_doubles(build(Av), 'x'), nframes, out, rl, flp, chunk])
             except (Throw, UB) as e: res.absorb(m); res.inc(f'{label}: {type(e).__name__} at amplitude {Av}'); continue
             res.absorb(m); sol = z3.Solver(); sol.add(z3.Not(z3.BoolVal(cnt == 0)))
             if timed_check(sol, res) == z3.unsat: res.ob(True, 'ground', f'{label}: amplitude {Av}: no detection')
-            else: confirm(res, PID, HARNESS, 'h_detect', [('pf64', ht), ('i32', nh), ('f64', 0.5), ('pf64', build(Av)), ('i32', nframes), ('pf64', [0.0] * (rl * 4)), ('i32', rl), ('pi32', [0])], 'i32', 'detect', ORACLES, 'detector:absent', f'{label}: {cnt} detection(s) without a preamble at amplitude {Av}', extra={'L': L, 'pos': pos, 'absent': True})
+            else: confirm(res, PID, HARNESS, 'h_detect', [('pf64', ht), ('i32', nh), ('f64', 0.5), ('pf64', build(Av)), ('i32', nframes), ('pf64', [0.0] * (rl * 4)), ('i32', rl), ('pi32', [0]), ('i32', chunk)], 'i32', 'detect', ORACLES, 'detector:absent', f'{label}: {cnt} detection(s) without a preamble at amplitude {Av}', extra={'L': L, 'pos': pos, 'absent': True})
         return
     def setup(m):
         m.assume(z3.And(A >= z3.RealVal('1/1000'), A <= 1000)); out = m.alloc_doubles([0.0] * (rl * 4), 'out'); fl = m.alloc_ints([0], 32, 'fl')
-        return [m.alloc_doubles(ht, 'h'), nh, 0.5, m.alloc_doubles(build(fsym('A')), 'x'), nframes, out, rl, fl], out
-    def cex(Av, why): return confirm(res, PID, HARNESS, 'h_detect', [('pf64', ht), ('i32', nh), ('f64', 0.5), ('pf64', build(Av)), ('i32', nframes), ('pf64', [0.0] * (rl * 4)), ('i32', rl), ('pi32', [0])], 'i32', 'detect', ORACLES,
+        return [m.alloc_doubles(ht, 'h'), nh, 0.5, m.alloc_doubles(build(fsym('A')), 'x'), nframes, out, rl, fl, chunk], out
+    def cex(Av, why): return confirm(res, PID, HARNESS, 'h_detect', [('pf64', ht), ('i32', nh), ('f64', 0.5), ('pf64', build(Av)), ('i32', nframes), ('pf64', [0.0] * (rl * 4)), ('i32', rl), ('pi32', [0]), ('i32', chunk)], 'i32', 'detect', ORACLES,
                                      f'detector:{"absent" if absent else ("frame-end" if (pos + nh - 1) % L == L - 1 else "inside")}', why, extra={'L': L, 'pos': pos, 'absent': absent})
     end = pos + nh - 1; npaths = 0
     for p in explore(mod, '@h_detect', setup, max_paths=12, max_steps=100_000_000):
@@ -203,6 +203,8 @@ def main(tier, seed):
         fl = (1 << (2 * nh - 1).bit_length()) - nh + 1
         for pos in range(0, 2 * fl): jobs.append((f'detector PN{nh} pos={pos}', 'detect', dict(nh=nh, pos=pos, nframes=3), 1800))
         jobs.append((f'detector PN{nh} absent', 'detect', dict(nh=nh, pos=0, nframes=2, absent=True), 1800))
+        for ch in ((2,) if q else (2, 3)):                                   # several frames per process() call: the preamble inside a call, across the call boundary, at the start of the next call
+            for pos in sorted({fl - 2, ch * fl - nh + 1, ch * fl - 3, ch * fl - 1, ch * fl} if q else set(range(fl - 3, ch * fl + 2))): jobs.append((f'detector PN{nh} pos={pos} chunk={ch}', 'detect', dict(nh=nh, pos=pos, nframes=2, chunk=ch), 1800))
         for ts in ((4.0, 0.25) if q else (4.0, 0.25, 1000.0, 0.02)):      # reference templates whose power is not 1
             for pos in ((2, fl - 1) if q else (0, 2, fl - 1, fl + 3)): jobs.append((f'detector PN{nh} pos={pos} tscale={ts}', 'detect', dict(nh=nh, pos=pos, nframes=3, tscale=ts), 1800))
             jobs.append((f'detector PN{nh} absent tscale={ts}', 'detect', dict(nh=nh, pos=0, nframes=2, absent=True, tscale=ts), 1800))
